@@ -314,6 +314,14 @@ class Model(object):
         if n.first_activity_t is None:
             n.first_activity_t = self.t
         if n.parent is None:
+            # the root debits and credits itself (both as flows): net zero, but in floating point (x - a) + a may
+            # differ from x by an ulp - mirror the two steps so that an exact zero base stays exact on both sides
+            n.cash += -amount
+            n.flows_today += -amount
+            n.ext_flow_today += -amount
+            n.cash += amount
+            n.flows_today += amount
+            n.ext_flow_today += amount
             return
         n.parent.activity_today += 1
         if n.parent.first_activity_t is None:
